@@ -84,6 +84,17 @@ func c11(tier string) []*explore.Scenario {
 	for _, unread := range []int{1, 2, 3, 4} {
 		out = append(out, c11One(abandon{"caller-stops", unread, 0, false, false}, 64, 0, 0))
 	}
+	// the statement's full ranges (n<=8 messages, m<=8 unread, 0..4 other RPCs) under the default schedule
+	for _, others := range []int{0, 2, 4} {
+		for _, cp := range []int{0, 64} {
+			for _, k := range []int{0, 4, 7} {
+				out = append(out, c11One(abandon{"handler-returns", 8, k, false, false}, cp, others, 0))
+			}
+			for _, k := range []int{0, 3, 8} {
+				out = append(out, c11One(abandon{"caller-cancels", 8, k, false, false}, cp, others, 0))
+			}
+		}
+	}
 	if tier == "thorough" {
 		for _, n := range []int{6, 8} {
 			out = append(out, c11One(abandon{"handler-returns", n, 1, false, false}, 64, 2, 1))
